@@ -149,11 +149,14 @@ class AbsGF:
 
     __vt_leaf__ = True
 
-    def __init__(self, name="g", pair_retval=False, discard_kind="value", gen_total=False):
+    def __init__(self, name="g", pair_retval=False, discard_kind="value", gen_total=False, ret_kind=None):
         n = engine().fresh_name
         self.name = name
         self.D = z3.Function(n("D_" + name), V, V, z3.RealSort())
-        self.R = z3.Function(n("R_" + name), V, V, V)
+        # return value: an abstract value, or (ret_kind="int" / "float") a NUMBER of that dtype
+        self.ret_kind = ret_kind
+        rs = {None: V, "int": z3.IntSort(), "float": z3.RealSort()}[ret_kind]
+        self.R = z3.Function(n("R_" + name), V, V, rs)
         self.DrawF = z3.Function(n("Draw_" + name), V, z3.IntSort(), V)
         self.GenX = z3.Function(n("GenX_" + name), V, V, z3.IntSort(), V)
         self.GenW = z3.Function(n("GenW_" + name), V, V, z3.IntSort(), z3.RealSort())
